@@ -194,7 +194,7 @@ def e2e(ctx, rng, n):
             for rep in range(2):
                 for (u, c, scopes, req) in [("diana", "client_1", ["openid", "email", "profile"], {"nickname": None}),
                                             ("babs", "client_2", ["openid", "address", "phone", "profile"], {"email": {"essential": True}}),
-                                            ("diana", "client_3", ["openid"], {})]:
+                                            ("diana", "client_12", ["openid"], {})]:
                     claims_param = {"userinfo": req, "id_token": req} if req else None
                     extra = {"claims": claims_param} if claims_param else {}
                     o = rs.run(("authz", u, c, scopes, "code", extra))
